@@ -1329,7 +1329,26 @@ func genLoop(o *out) {
 	_ = cancelAt
 	_ = clearAt
 	wt := f.method("StdScheduler", "Wait")
-	waits := lpHasCall(wt.Body, "sched.wg.Wait")
+	// Wait: either a helper goroutine around sync.WaitGroup.Wait, or a select on the counter's idle channel
+	waits := lpHasCall(wt.Body, "sched.wg.Wait") || lpHasCall(wt.Body, "sched.wg.idle")
+	waitNoGoroutine := true
+	ast.Inspect(wt.Body, func(n ast.Node) bool {
+		if _, ok := n.(*ast.GoStmt); ok {
+			waitNoGoroutine = false
+		}
+		return true
+	})
+	waitSelectsCtx := false
+	ast.Inspect(wt.Body, func(n ast.Node) bool {
+		if sl, ok := n.(*ast.SelectStmt); ok {
+			for _, c := range sl.Body.List {
+				if lpCommRecv(c.(*ast.CommClause)) == "ctx.Done()" {
+					waitSelectsCtx = true
+				}
+			}
+		}
+		return true
+	})
 	is := f.method("StdScheduler", "IsStarted")
 	if !lpHasCall(is.Body, "sched.mtx.RLock") {
 		die("IsStarted: does not take sched.mtx")
@@ -1348,4 +1367,7 @@ func genLoop(o *out) {
 	o.line("Definition stop_cancels : bool := %s.", coqBool(cancels))
 	o.line("Definition stop_clears_started : bool := %s.", coqBool(clears))
 	o.line("Definition wait_waits_wg : bool := %s.", coqBool(waits))
+	o.line("Definition wait_selects_ctx : bool := %s.", coqBool(waitSelectsCtx))
+	o.line("(* Wait starts no goroutine of its own (a Wait whose context expires leaves nothing behind) *)")
+	o.line("Definition wait_leaves_no_goroutine : bool := %s.", coqBool(waitNoGoroutine))
 }
